@@ -53,15 +53,20 @@ def build_traces(L):
         for i, line in enumerate(raw):
             parts = line.split(":")
             text = parts[3] if len(parts) == 4 else ""
+            filed = -1
             try:
                 info = L.circuit_lookup.stabilizer_circuit_lookup(n, conn, i)
                 g = impl.gates_of(info.parse_circuit())
                 graph, cost, depth = int(info.graph_id), int(info.cost), int(info.depth)
+                try:    # the class id the library's classifier files the entry's graph state under
+                    filed = int(L.lc_classes.determine_lc_class(L.stabilizer.Stabilizer(L.graph.Graph.decompress(n, graph))).id())
+                except Exception:
+                    filed = -2
             except Exception as e:  # the loader cannot even read the line
                 g, graph, cost, depth = [["!" + type(e).__name__, -1, -1]], 0, -1, -1
             traces.append({"kind": "table", "n": n, "conn": conn if supported else "", "gates": g,
                            "gates2": independent_parse(text), "graph": graph, "cost": cost, "depth": depth,
-                           "cls": i if i < K else -1, "nlines": len(raw)})
+                           "cls": i if i < K else -1, "nlines": len(raw), "filed": filed})
             meta.append((f"stabilizer{n}-{conn}#{i}", line))
     missing = [c for c in impl.SUPPORTED if c not in seen_cfg]
     return traces, meta, missing
